@@ -176,6 +176,9 @@ def rules(rep, facts):
         r6_value_display(rep, facts, cg)
         from .rules_c17 import r1_passes
         r1_passes(rep, facts, rid='C06/R7')
+    from .rules_c08 import r3_conversions
+    r3_conversions(rep, facts)
+    rep.relabel('C08/R3', 'C06/R9', 'containers built by conversion hold only printable children (an inline table prints values only, so a child left as a table or array of tables vanishes from the text): ')
     R8 = rep.rule('C06/R8', 'no order-breaking operation / unstable sort in the printers (the same structure always prints the same, valid header order)', floor=2)
     order_ops(rep, R8, facts)
 
